@@ -1,5 +1,6 @@
 import Qryn.Proofs.ReadCode
 import Qryn.Proofs.ReadPipe
+import Qryn.ReadSide.Census
 /-! # C12 — no query can crash, hang or leak work on the read side   (PARTIAL: bookkeeping proved, runtime explored)
 
 Property theorems only. Models: `Qryn.ReadSide` (Params.lean: controllers' parameter handling, `FixPeriodPlanner`,
@@ -85,6 +86,59 @@ def unreachableEarlyReturn : List String :=
     (`drainEntries`, an empty `for range`) — the exporters, `WrapProcess`, `FixPeriodPlanner`, the forwarders. -/
 theorem consumers_drain :
     ∀ c ∈ ReadSide.consumers, c.2.1 = true → c.2.2 = true ∨ c.1 ∈ unreachableEarlyReturn := by decide
+
+/-! ### T: the fault-site census of every goroutine started under reader/ -/
+open Qryn.ReadSide.Census in
+/-- **fault_site_census.** `Gen.ReadGoroutines` lists, for every `go` statement under reader/ (function literal or
+    named function; followed through deferred calls, local closures, callbacks and same-package callees four levels
+    deep, a deeper call being itself a site) whose goroutine has no recover of its own, every syntactic place where the
+    run time can panic: index / slice / store through an index, type assertion without `, ok`, division and shift by a
+    non-constant, `make` with a size that is neither constant nor a `len`, explicit dereference, slice-to-array
+    conversion, `panic`, send, close, dropped error, call of a function value, and the library calls at which the
+    census stops. The theorem says that this regenerated list is EXACTLY the reviewed one (`Census.reviewed`: same
+    goroutines, same sites, same order; each with its classification), that every classification that cites a
+    dominating condition (`guarded c`) or the sole-close fact (`ownChannel`) is backed by what the translator found at
+    that site, and that the library calls are exactly the reviewed ones. A new `make([]T, n)` with a request-derived
+    `n` in `Scan`, a new index expression, a removed guard, a second `close`, a new callee — each changes the
+    regenerated list and breaks this theorem until the site is reviewed. This replaces "by reading" for the
+    goroutines other than FixPeriodPlanner / Scan / ScanMatrix / TraceQL: what is still by reading is, per entry, the
+    reason string of a `contract`, `harmless`, `sizedBy`, `mapAccess` or `drainedBy` classification. -/
+theorem fault_site_census :
+    censusMatches unrecovered reviewed = true ∧
+    ReadGoroutines.externsUnion = reviewedExterns.map (·.1) := by
+  constructor
+  · decide +kernel
+  · decide +kernel
+
+open Qryn.ReadSide.Census in
+/-- the un-recovered goroutines of the older, narrower inventory (`goroutine_inventory`) are among those of the census -/
+theorem census_covers_inventory :
+    ∀ n ∈ detachedModelled, n ∈ unrecovered.map (·.1) := by decide +kernel
+
+open Qryn.ReadSide.Census in
+/-- **producers_rely_on_drain.** No send of any goroutine started under reader/ (the recovered stages included) is an
+    alternative of a `select` with a `<-ctx.Done()` alternative: every producer's send is unconditional. Hence the
+    convention the code relies on is the FIRST of the two under which `no_blocked_sender` holds — the consumer reads
+    until close, or leaves a drainer behind — and not the context. (Scan/ScanMatrix poll `ctx.Done()` between rows
+    only to stop early.) -/
+theorem producers_rely_on_drain :
+    ∀ g ∈ ReadGoroutines.goroutines, (sendProfile g).2.2 = 0 := by decide +kernel
+
+/-- handler loops that can be left before the channel is closed without leaving a drain behind; each with the reason
+    why the exit is not taken -/
+def unreachableHandlerExits : List (String × String) :=
+  [("TempoController.Trace", "#2 range res")]
+  -- `json.Marshal(SpanToJSONSpan(span))`: a JSONSpan holds strings, uint64s and a *v1.Status only — Marshal cannot fail
+
+/-- **handler_loops_read_to_close.** The consumer side of `no_blocked_sender` in the source: every loop of
+    reader/controller that receives from a service channel either has no `return` / `break` / `goto` / `panic` in its
+    body — it reads until the producer closes — or the handler leaves a drainer behind AND cancels (the websocket
+    tail); the one exception is listed with the reason. The seeded change C12-1 (a `return` on a write error or a
+    cancelled request context inside `for str := range ch`) turns `(…, false, false, false)` into
+    `(…, true, false, false)` and breaks this theorem. -/
+theorem handler_loops_read_to_close :
+    ∀ l ∈ ReadGoroutines.handlerLoops,
+      l.2.2.1 = false ∨ (l.2.2.2.1 = true ∧ l.2.2.2.2 = true) ∨ (l.1, l.2.1) ∈ unreachableHandlerExits := by decide
 
 /-- handlers that answer without touching the database or speak another protocol (websocket tail) -/
 def staticHandlers : List String :=
